@@ -3,4 +3,4 @@
 d=/verif/build/tlc/sany_$$; mkdir -p $d; cp /verif/spec/*.tla /verif/spec/mc/*.tla $d/; cd $d
 out=$(tla-sany $1.tla 2>&1 | grep -v "^Semantic processing\|^Parsing file\|^Linting\|^WARNING\|^$\|SANY2 Version")
 rm -rf $d
-if [ -z "$out" ]; then echo "$1: ok"; else echo "$out" | head -${2:-20}; fi
+if [ -z "$out" ]; then echo "$1: ok"; else echo "$out" | head -${2:-20}; exit 1; fi
